@@ -299,7 +299,7 @@ func c20Compare(got, want []rec.Call, mags [][]float64, ulps float64) (int, stri
 			if mags[i] != nil && j < len(mags[i]) && mags[i][j] > mag {
 				mag = mags[i][j]
 			}
-			if math.Abs(float64(g.A[j])-float64(x.A[j])) > ulps*ulp32(mag)+1e-30 {
+			if !(math.Abs(float64(g.A[j])-float64(x.A[j])) <= ulps*ulp32(mag)+1e-30) {
 				return i, fmt.Sprintf("operand %d of %s is %s, expected %s", j, g.M, rec.F(g.A[j]), rec.F(x.A[j]))
 			}
 		}
@@ -376,7 +376,7 @@ func init() {
 		ID:    "C20",
 		Level: "exploration",
 		Rule: "engine B over the two dialect grammars of the statement. Structure: every command sequence M|m (1 or 2 operand groups) + <=3 (thorough <=4) further commands over the dialect's verbs with 1 or 2 operand groups (implicit repetition), sub-path joins zM/zm, terminator z (generator) / optional z (converter), x 5 transforms / 4 (size,offset,outSize) triples x ADJ {0,3}. " +
-			"Lexis: for every verb, every number form {1,-2,+3,.5,-.25,10.5,0,007,+12.5,-0.75,+.5, three forms with 20 or more digits} in every operand position x every separator {space, comma, two spaces, nothing where the next sign or dot delimits}. Concat/MulAff3: all ordered triples of 8 matrices against float64 composition. Converter level: SVG files with <=3 paths x opacity attributes {absent,1,.5,.25} in both attribute spellings x 0..2 circles x {viewBox 0 0 48 48 at size 48, viewBox 4 -2 24 24 at size 24} through ParseFile. " +
+			"Lexis: for every verb, every number form {1,-2,+3,.5,-.25,10.5,0,007,+12.5,-0.75,+.5, three forms with 20 or more digits} in every operand position x every separator {space, comma, two spaces, comma with spaces around it, nothing where the next sign or dot delimits}. Long: every verb once with 300 operand groups. Concat/MulAff3: all ordered triples of 8 matrices against float64 composition. Converter level: SVG files with <=3 paths x opacity attributes {absent,1,.5,.25} in both attribute spellings x 0..2 circles x {viewBox 0 0 48 48 at size 48, viewBox 4 -2 24 24 at size 24} through ParseFile. " +
 			"Expected calls are built from the structured description (not by parsing): first move => StartPath(adj), later moves => close-and-move, one ClosePathEndPath; absolute operands full transform, relative scale only, H/V matching axis, radii scale, flags unchanged, rotation/360; within 3 float32 ulp at the magnitude of the largest term (converter 4). " +
 			"distinct = hash of the emitted call kinds; non-trivial = string with an implicit repetition, a sub-path join or a non-space separator",
 		Assumptions: []string{"strings outside the two dialects (exponents, whitespace after a verb, commas in the converter, z not followed by a move or the end) are not generated"},
@@ -389,6 +389,7 @@ func init() {
 				c20Structure(w, "converter", false, u-2*ng)
 			case u == 2*ng+nc:
 				c20Lexis(w)
+				c20Long(w)
 			case u == 2*ng+nc+1:
 				c20Concat(w)
 			default:
@@ -464,7 +465,7 @@ func c20Structure(w *mc.W, dialect string, lowerStart bool, first int) {
 }
 
 func c20Lexis(w *mc.W) {
-	seps := []string{" ", ",", "  ", ""}
+	seps := []string{" ", ",", "  ", "", ", ", " ,", " , "}
 	for _, dialect := range []string{"generator", "converter"} {
 		verbs := append([]byte("Mm"), c20GenVerbs...)
 		if dialect == "converter" {
@@ -475,7 +476,7 @@ func c20Lexis(w *mc.W) {
 			for pos := 0; pos < ar; pos++ {
 				for _, f := range c20Forms {
 					for _, sep := range seps {
-						if dialect == "converter" && sep == "," {
+						if dialect == "converter" && strings.Contains(sep, ",") {
 							continue
 						}
 						ctr := 0
@@ -525,6 +526,23 @@ func c20Lexis(w *mc.W) {
 	}
 }
 
+// c20Long: one verb with 300 operand groups (implicit repetition well beyond any one-byte count)
+func c20Long(w *mc.W) {
+	for _, dialect := range []string{"generator", "converter"} {
+		verbs := c20GenVerbs
+		if dialect == "converter" {
+			verbs = c20ConvVerbs
+		}
+		for _, verb := range verbs {
+			ctr := 0
+			cmds := []c20Cmd{{Verb: 'M', Groups: c20MkGroups('M', 1, &ctr)}, {Verb: verb, Groups: c20MkGroups(verb, 300, &ctr)}}
+			for tf := 0; tf < 2; tf++ {
+				c20Check(w, &c20Case{Dialect: dialect, Cmds: cmds, TF: tf * 3, Adj: 0, TrailZ: true})
+			}
+		}
+	}
+}
+
 func c20Check(w *mc.W, cs *c20Case) {
 	w.Eval()
 	d := c20String(cs.Cmds, cs.Dialect, cs.TrailZ, cs.Adj == 3)
@@ -540,11 +558,15 @@ func c20Check(w *mc.W, cs *c20Case) {
 			g.SetDestination(&rd)
 			tf := c20Transforms[cs.TF]
 			tfName = tf.name
-			// the Generator had another (two-factor) transform before; with no transform in the
-			// case the identity is configured again explicitly
-			g.SetTransform(generate.Scale(3, 5), generate.Translate(1, 1))
-			if tf.tf == nil {
-				g.SetTransform()
+			// every other case runs on a Generator with a history: it had another (two-factor)
+			// transform before (with no transform in the case the identity is configured again
+			// explicitly) and the judged path is the second one it emits. The others are pristine.
+			used := (len(d)+cs.TF)%2 == 1
+			if used {
+				g.SetTransform(generate.Scale(3, 5), generate.Translate(1, 1))
+				if tf.tf == nil {
+					g.SetTransform()
+				}
 			}
 			if tf.tf != nil {
 				// the transform is configured from a slice the caller goes on to reuse: what counts is
@@ -557,22 +579,26 @@ func c20Check(w *mc.W, cs *c20Case) {
 			}
 			// the judged path is the second one this Generator emits: nothing of the first (pen,
 			// sub-path start, pending verb) carries over
-			if perr := g.SetPathData("M3 1.5l2 2q1 1 2 0zm1 1h2z", 1); perr != nil {
-				err = perr
-				return
+			if used {
+				if perr := g.SetPathData("M3 1.5l2 2q1 1 2 0zm1 1h2z", 1); perr != nil {
+					err = perr
+					return
+				}
+				rd.ResetLog()
 			}
-			rd.ResetLog()
 			err = g.SetPathData(d, cs.Adj)
 			want, mags = c20Expect(cs.Cmds, cs.Adj, c20GenXform(tf.tf))
 		} else {
 			c := c20Conv[cs.TF]
 			tfName = fmt.Sprintf("size %g offset %v outSize %g", c.size, c.off, c.outSize)
-			if perr := mdicons.ParsePathData(&rd, "M3 1.5l2 2q1 1 2 0zm1 1h2z", 1, c.size, c.off, c.outSize); perr != nil {
-				err = perr
-				return
+			if len(d)%2 == 1 {
+				if perr := mdicons.ParsePathData(&rd, "M3 1.5l2 2q1 1 2 0zm1 1h2z", 1, c.size, c.off, c.outSize); perr != nil {
+					err = perr
+					return
+				}
+				rd.ClosePathEndPath()
+				rd.ResetLog()
 			}
-			rd.ClosePathEndPath()
-			rd.ResetLog()
 			err = mdicons.ParsePathData(&rd, d, cs.Adj, c.size, c.off, c.outSize)
 			want, mags = c20Expect(cs.Cmds, cs.Adj, c20ConvXform(cs.TF))
 			want = want[:len(want)-1] // ParsePathData leaves ending the path to ParsePath
@@ -664,12 +690,12 @@ func c20ConcatOne(w *mc.W, a, b, c int) {
 		}
 		gx, gy := generate.MulAff3(pt[0], pt[1], cat)
 		tol := 16 * ulp32(mag) * (1 + mag)
-		if math.Abs(float64(gx)-x) > tol || math.Abs(float64(gy)-y) > tol {
+		if !(math.Abs(float64(gx)-x) <= tol && math.Abs(float64(gy)-y) <= tol) {
 			w.Fail("concat:composition", fmt.Sprintf("Concat(%v,%v,%v) maps (%g,%g) to (%g,%g), applying the factors in order gives (%g,%g)", ms[0], ms[1], ms[2], pt[0], pt[1], gx, gy, x, y), cs)
 			return
 		}
 		hx, hy := generate.MulAff3(pt[0], pt[1], cat2)
-		if math.Abs(float64(hx)-x2) > tol || math.Abs(float64(hy)-y2) > tol {
+		if !(math.Abs(float64(hx)-x2) <= tol && math.Abs(float64(hy)-y2) <= tol) {
 			w.Fail("concat:composition", fmt.Sprintf("Concat(%v,%v) maps (%g,%g) to (%g,%g), applying the factors in order gives (%g,%g)", ms[0], ms[1], pt[0], pt[1], hx, hy, x2, y2), cs)
 			return
 		}
@@ -692,7 +718,8 @@ type c20Path struct {
 type c20File struct {
 	Paths   []c20Path    `json:"paths"`
 	Circles [][3]float64 `json:"circles"`
-	View    int          `json:"view,omitempty"` // index into c20Views
+	View    int          `json:"view,omitempty"`          // index into c20Views
+	Skipped bool         `json:"skipped_first,omitempty"` // the file starts with a path the converter deliberately skips
 }
 
 // SVG viewBox attribute, size argument; outSize is 48 throughout (the converter's viewBox is fixed)
@@ -715,6 +742,9 @@ func c20Files(w *mc.W) {
 			}
 			for v := range c20Views {
 				c20FileOne(w, &c20File{Paths: append([]c20Path(nil), paths...), Circles: cl, View: v})
+				if v == 0 && len(paths) > 0 {
+					c20FileOne(w, &c20File{Paths: append([]c20Path(nil), paths...), Circles: cl, View: v, Skipped: true})
+				}
 			}
 		}
 		if len(paths) == 3 || w.Expired() {
@@ -745,6 +775,10 @@ func c20FileOne(w *mc.W, f *c20File) {
 	ax := func(x float64) float32 { return float32(x*k - 24 - view.vbx*k) }
 	ay := func(y float64) float32 { return float32(y*k - 24 - view.vby*k) }
 	rl := func(v float64) float32 { return float32(v * k) }
+	if f.Skipped {
+		// (one of the converter's hard-wired exceptions: a white rectangle painted over by what follows)
+		sb.WriteString(`<path fill="#fff" d="M16 34h22v4H16z"/>`)
+	}
 	for _, p := range f.Paths {
 		attr := ""
 		if strings.HasPrefix(p.Opacity, "o:") {
@@ -869,7 +903,7 @@ func c20FileOne(w *mc.W, f *c20File) {
 			return
 		}
 		for j := 0; j < rec.NArgs[g.M]; j++ {
-			if !ref.Nearest64(x.A[j], g.A[j]) && math.Abs(float64(g.A[j]-x.A[j])) > 1.0/64 {
+			if !ref.Nearest64(x.A[j], g.A[j]) && !(math.Abs(float64(g.A[j]-x.A[j])) <= 1.0/64) {
 				fail("calls:"+x.M.String(), fmt.Sprintf("call %d is %s, expected %s", i, g, x))
 				return
 			}
